@@ -514,16 +514,24 @@ pub fn format_block(ctx: &Context, block: &Block, shape: Shape) -> Block {
 
     while let Some((stmt, semi)) = stmt_iterator.next() {
         ctx = ctx.check_toggle_formatting(stmt);
+        // Decide on the original statement: the tokens of a formatted statement have no position
+        let should_format = ctx.should_format_node(stmt);
 
         let shape = shape.reset();
         let mut stmt = format_stmt(&ctx, stmt, shape);
 
         // If this is the first stmt, then remove any leading newlines
         if !found_first_stmt {
-            if let FormatNode::Normal = ctx.should_format_node(&stmt) {
+            if let FormatNode::Normal = should_format {
                 stmt = stmt_remove_leading_newlines(stmt);
             }
             found_first_stmt = true;
+        }
+
+        // A statement which is ignored or outside of the formatting range keeps its semicolon as written
+        if !matches!(should_format, FormatNode::Normal) {
+            formatted_statements.push((stmt, semi.to_owned()));
+            continue;
         }
 
         // If we have a semicolon, we need to push all the trailing trivia from the statement
@@ -582,18 +590,20 @@ pub fn format_block(ctx: &Context, block: &Block, shape: Shape) -> Block {
     let formatted_last_stmt = match block.last_stmt_with_semicolon() {
         Some((last_stmt, semi)) => {
             ctx = ctx.check_toggle_formatting(last_stmt);
+            let should_format = ctx.should_format_node(last_stmt);
 
             let shape = shape.reset();
             let mut last_stmt = format_last_stmt(&ctx, last_stmt, shape);
             // If this is the first stmt, then remove any leading newlines
-            if !found_first_stmt && matches!(ctx.should_format_node(&last_stmt), FormatNode::Normal)
-            {
+            if !found_first_stmt && matches!(should_format, FormatNode::Normal) {
                 last_stmt = last_stmt_remove_leading_newlines(last_stmt);
             }
 
             // LastStmt will never need a semicolon
             // We need to check if we previously had a semicolon, and keep the comments if so
             let semicolon = match semi {
+                // A statement which is ignored or outside of the formatting range keeps its semicolon as written
+                Some(semi) if !matches!(should_format, FormatNode::Normal) => Some(semi.to_owned()),
                 Some(semi) => {
                     // Append semicolon trailing trivia to the end, but before the newline
                     // TODO: this is a bit of a hack - we should probably move newline appending to this function
